@@ -42,7 +42,7 @@ def get_model(name):
     return c04_shift.get_model(name)
 
 
-def build_loader(d, chunks):
+def build_loader(d, chunks, perm=None):
     from acryo import SubtomogramLoader, Molecules
     import dask.array as da
 
@@ -53,6 +53,8 @@ def build_loader(d, chunks):
     pos = np.array([[S / 2 + o[0], S / 2 + o[1], i * S + S / 2 + o[2]] for i, o in enumerate(d["offs"][:n])])
     R = Rotation.from_rotvec(np.array([r["rv"] for r in d["rots_m"][:n]]))
     img = tomo if chunks is None else da.from_array(tomo, chunks=chunks)
+    if perm is not None:
+        pos, R = pos[perm], R[perm]
     return SubtomogramLoader(img, Molecules(pos * d["scale"], R), order=d["order"], scale=d["scale"], output_shape=shape)
 
 
@@ -114,6 +116,20 @@ def judge_differential(d):
             variants.append(("dask-chunked/sync", dict(scheduler="synchronous"), ch))
             variants.append((f"dask-chunked/threads({d['workers'][-1]})", dict(scheduler="threads", num_workers=d["workers"][-1]), ch))
         tag = f"{d['comp']} model={d['model']} n={d['n']} shape={tuple(d['shape'])} K={1 + len(d['rots'])}"
+        # task execution order: the same molecules submitted in reverse order (synchronous scheduler: executed in reverse) must
+        # get the same per-molecule results
+        if d["comp"] != "average" and d["n"] >= 2:
+            perm = list(range(d["n"]))[::-1]
+            with dask.config.set(scheduler="synchronous"):
+                rev = compute(d, build_loader(d, None, perm=perm))
+            for k in ref:
+                ax = 1 if k == "score" and d["comp"] == "score" else 0
+                back = np.take(rev[k], np.argsort(perm), axis=ax) if k in rev and rev[k].shape == ref[k].shape else None
+                if back is None or not np.array_equal(back, ref[k], equal_nan=True):
+                    diff = float(np.abs(back.astype(np.float64) - ref[k].astype(np.float64)).max()) if back is not None else -1
+                    out.append(viol(f"C10/result-depends-on-task-order:{d['comp']}", f"{tag}: '{k}' differs when the molecules are submitted in reverse order "
+                                    f"(max diff {diff:.3g})"))
+                    break
         for name, cfg, ch in variants:
             for rep in range(d["repeats"] if name.startswith("threads") else 1):
                 try:
@@ -480,7 +496,9 @@ def differential_cases(draw):
     d = draw(base_case())
     n = draw(st.integers(2, 6))
     S = max(d["shape"]) + 10
-    d.update({"n": n, "comp": draw(st.sampled_from(["asnumpy", "average", "align", "multi", "score", "landscape", "apply"])),
+    if draw(st.booleans()):
+        d["tilt"] = [-60.0, 60.0]
+    d.update({"n": n, "comp": draw(st.sampled_from(["asnumpy", "average", "align", "align", "multi", "score", "score", "landscape", "apply"])),
               "offs": [[round(draw(st.floats(-1, 1)), 2) for _ in range(3)] for _ in range(n)],
               "rots_m": [draw(gen.rotvecs()) for _ in range(n)],
               "workers": sorted(set(draw(st.lists(st.sampled_from([1, 2, 4, 16]), min_size=1, max_size=2)))),
@@ -593,7 +611,7 @@ def engines():
     e = [
         Engine("differential", judge_differential, strategy=differential_cases(), nontrivial=nontrivial_diff,
                labels=lambda d: [f"comp:{d['comp']}", f"model:{d['model']}", "chunked" if d["chunks"] else "numpy"] + [f"workers:{w}" for w in d["workers"]],
-               cases={"quick": 40, "thorough": 1200}, shards={"quick": 8, "thorough": 16}, shrink={"quick": False, "thorough": True}),
+               cases={"quick": 80, "thorough": 1200}, shards={"quick": 16, "thorough": 16}, shrink={"quick": False, "thorough": True}),
         Engine("interleave", judge_interleave, strategy=interleave_cases(), enumerate=all_two_thread_schedules,
                nontrivial=lambda d: d["nthreads"] >= 2,
                labels=lambda d: [f"model:{d['model']}", f"threads:{d['nthreads']}"] + [f"op:{o}" for o in d["ops"]],
